@@ -52,7 +52,90 @@ _PROP = None
 _TIER = None
 
 
+def _stall_limit():
+    if os.environ.get('VERIF_STALL_S'):
+        return float(os.environ['VERIF_STALL_S'])
+    return 90.0 if _TIER == 'quick' else 600.0
+
+
 def _run_one(arg):
+    """Run one unit in a forked child under a heartbeat watchdog: if no
+    evaluation finishes for _stall_limit() seconds the child is killed and
+    the unit is reported as not terminating."""
+    import mmap
+    import pickle
+    import select
+    import signal as _signal
+    idx, unit = arg
+    if os.environ.get('VERIF_NO_FORK'):
+        return _run_one_inline(arg)
+    hb = mmap.mmap(-1, 8)
+    r, w = os.pipe()
+    pid = os.fork()
+    if pid == 0:
+        os.close(r)
+        try:
+            from mc import explore
+            explore.HEARTBEAT[0] = hb
+            res = _run_one_inline(arg)
+            data = pickle.dumps(res)
+        except BaseException:
+            data = pickle.dumps({'unit_index': idx, 'crash': True,
+                                 'in_impl': False, 'site': '', 'etype': '?',
+                                 'trace': traceback.format_exc(),
+                                 'unit': repr(unit)[:500]})
+        try:
+            off = 0
+            while off < len(data):
+                off += os.write(w, data[off:off + 65536])
+        finally:
+            os._exit(0)
+    os.close(w)
+    chunks = []
+    last = -1
+    last_change = time.time()
+    limit = _stall_limit()
+    stalled = False
+    while True:
+        ready, _, _ = select.select([r], [], [], 1.0)
+        if ready:
+            b = os.read(r, 1 << 20)
+            if not b:
+                break
+            chunks.append(b)
+            last_change = time.time()
+            continue
+        hb.seek(0)
+        cur = int.from_bytes(hb.read(8), 'little')
+        if cur != last:
+            last = cur
+            last_change = time.time()
+        elif time.time() - last_change > limit:
+            stalled = True
+            try:
+                os.kill(pid, _signal.SIGKILL)
+            except OSError:
+                pass
+            break
+    os.close(r)
+    try:
+        os.waitpid(pid, 0)
+    except OSError:
+        pass
+    hb.close()
+    if stalled:
+        return {'unit_index': idx, 'stall': True, 'after': last,
+                'unit': unit, 'limit': limit}
+    try:
+        return pickle.loads(b''.join(chunks))
+    except Exception:
+        return {'unit_index': idx, 'crash': True, 'in_impl': False,
+                'site': '', 'etype': 'ChildDied',
+                'trace': 'the unit\'s child process died without a result',
+                'unit': repr(unit)[:500]}
+
+
+def _run_one_inline(arg):
     idx, unit = arg
     t0 = time.time()
     try:
@@ -105,11 +188,34 @@ def replay_in_subprocess(pid, rel):
     return p.returncode, keys, p.stdout + p.stderr
 
 
+def _tuplify(x):
+    """Units are tuples (JSON turned them into lists)."""
+    if isinstance(x, list):
+        return tuple(_tuplify(i) if isinstance(i, list) and i and
+                     not isinstance(i[0], (list, dict)) and len(i) < 6
+                     else i for i in x)
+    return x
+
+
 def do_replay(pid, path, quiet=False):
+    global _PROP, _TIER
     prop = load_prop(pid)
     doc = json.load(open(path if os.path.isabs(path)
                          else os.path.join(ROOT, path)))
-    viols = prop.replay(doc['payload'])
+    if doc['payload'].get('kind') == 'unit-stall':
+        from mc.spec import from_jsonable
+        _PROP, _TIER = prop, doc['payload'].get('tier', 'quick')
+        os.environ['VERIF_STALL_S'] = os.environ.get('VERIF_REPLAY_STALL_S',
+                                                     '25')
+        unit = from_jsonable(doc['payload']['unit'])
+        res = _run_one((0, unit))
+        viols = []
+        if res.get('stall'):
+            viols = [{'key': 'does-not-terminate:unit-stall',
+                      'msg': 'unit stalled again after %d evaluations'
+                      % res['after']}]
+    else:
+        viols = prop.replay(doc['payload'])
     kf = known_findings()
     rc = 0
     from mc.explore import clean_key
@@ -212,6 +318,20 @@ def main(argv=None):
     extra = {}
     unit_caps = 0
     for r in sorted(done, key=lambda r: r['unit_index']):
+        if r.get('stall'):
+            from mc.spec import to_jsonable
+            key = 'does-not-terminate:unit-stall'
+            viols.setdefault(key, [r['unit_index'],
+                                   'no evaluation finished for %d s (after '
+                                   '%d evaluations) in unit %s'
+                                   % (r['limit'], r['after'],
+                                      repr(r['unit'])[:300]),
+                                   {'kind': 'unit-stall',
+                                    'unit': to_jsonable(r['unit']),
+                                    'tier': args.tier}, 0])
+            viols[key][3] += 1
+            unit_caps += 1
+            continue
         if r.get('crash'):
             if r['in_impl']:
                 key = 'crash:%s:%s' % (r['etype'], r['site'])
